@@ -438,7 +438,7 @@ func init() {
 	mc.Register(&mc.Check{
 		ID:    "C17",
 		Level: "exploration",
-		Rule: "E1 exhaustive: (a2) runs of N characters of one width (1, 2, 3, 4 bytes) with N x width within 3 characters of one and of two read blocks, behind 0..4 bytes of padding, decoded and run as a program (the run inside a comment, a statement after it); (a) every string of <= L characters over {a, é, 你, 😀, U+FFFD, U+FEFF} (L=4 quick, 5 thorough): unpadded through FileStream.ReadAll and ByteStream.ReadAll; padded with ASCII (before the character, and at file start) so that byte offset k of each character (k = 0..len, internal ones are the non-trivial cases) lies on block boundary 4096 and on 8192, through FileStream.ReadAll; unpadded through FileStream.Read(n) and ByteStream.Read(n) repeated to exhaustion for every constant n in 1..9 and every alternating pair (n1,n2) in 1..5 x 1..5. " +
+		Rule: "E1 exhaustive: (a3) 1..3 full read blocks followed by every incomplete head of a 2-, 3- or 4-byte character (the head is alone in the last read): rejected, never dropped; (a2) runs of N characters of one width (1, 2, 3, 4 bytes) with N x width within 3 characters of one and of two read blocks, behind 0..4 bytes of padding, decoded and run as a program (the run inside a comment, a statement after it); (a) every string of <= L characters over {a, é, 你, 😀, U+FFFD, U+FEFF} (L=4 quick, 5 thorough): unpadded through FileStream.ReadAll and ByteStream.ReadAll; padded with ASCII (before the character, and at file start) so that byte offset k of each character (k = 0..len, internal ones are the non-trivial cases) lies on block boundary 4096 and on 8192, through FileStream.ReadAll; unpadded through FileStream.Read(n) and ByteStream.Read(n) repeated to exhaustion for every constant n in 1..9 and every alternating pair (n1,n2) in 1..5 x 1..5. " +
 			"(b) every byte string of length <= 2 over all 256 values and of length 3 over 24 structural bytes (thorough: length 3 over all 256 values in the middle position, length 4 over the 24) inserted into a small ASCII+CJK host at start / middle / after the 1st and 2nd byte of a CJK character / end (FileStream.ReadAll and ByteStream.ReadAll) and into a 4.2 KiB host at every split of the string across block boundary 4096 (FileStream.ReadAll); every single-byte substitution (255 values x every offset) of a 60-byte sample with 1-4-byte characters, plain and with the substituted byte at offsets 4095 and 4096; GBK encodings of 4 sample programs alone and after a valid UTF-8 first line. " +
 			"(c) end to end through Interpreter.LoadFile(...).Execute: three small programs with every single byte, every pair of structural bytes and U+FFFD / U+FEFF / é / 😀 inserted at every byte offset, and every single-byte substitution; a > 4 KiB program with every single byte inserted in its second read block; plus the GBK files. " +
 			"Oracle: utf8.Valid => exactly []rune(string(bytes)) minus one leading U+FEFF and no error (end to end: same outcome as executing that text through LoadScript); not valid => a non-nil error (end to end: an error and no 显示 executed). (string, position, stream, n) tuples are distinct by construction (a few files coincide where inserted bytes equal neighbouring host bytes); a case is non-trivial if the input is not valid UTF-8, or contains U+FFFD / U+FEFF, or a multi-byte character is split by a block / Read(n) boundary.",
@@ -798,6 +798,28 @@ func c17Run(c *mc.Ctx) {
 						}
 					}
 				}
+			}
+		}
+	}
+
+	// ---- (a3) a file that ends in an incomplete character which is alone in its read block:
+	// k full blocks of ASCII (or of 3-byte characters), then the head of a character
+	for _, k := range []int{1, 2, 3} {
+		for _, tail := range [][]byte{{0xE4}, {0xE4, 0xB9}, {0xF0}, {0xF0, 0x9F}, {0xF0, 0x9F, 0x98}, {0xC3}} {
+			for _, fill := range []string{"a", "\n", "你"} {
+				if !unit() {
+					continue
+				}
+				n := 4096 * k / len(fill)
+				rest := 4096*k - n*len(fill)
+				for _, st := range []string{"file", "byte"} {
+					cur = c17Case{Part: "readall", Stream: st, Where: fmt.Sprintf("%d full blocks of %q, then the incomplete sequence % X", k, fill, tail),
+						Segs: c17Segs(c17R(fill, n), c17Pad(rest), c17H(tail))}
+					run("a3_incomplete_tail_alone_in_its_block", true)
+				}
+				cur = c17Case{Part: "e2e", Stream: "file", Where: fmt.Sprintf("program, %d full blocks, then the incomplete sequence % X", k, tail),
+					Segs: c17Segs(c17T("输出2 // "), c17R("a", 4096*k-len("输出2 // ")), c17H(tail))}
+				run("a3_incomplete_tail_alone_in_its_block", true)
 			}
 		}
 	}
